@@ -189,9 +189,12 @@
     "}" "}}"))
 
 (defn _fcomponent-repr [x bracketed]
+  (setv form (hy-repr (get x 0)))
   (+
     "{"
-    (hy-repr (get x 0))
+    ; A field that began with `{{` would be read as an escaped brace.
+    (if (.startswith form "{") " " "")
+    form
     (if x.conversion f" !{x.conversion}" "")
     (if (> (len x) 1)
       ; The format spec can have several parts: literal text and
